@@ -252,12 +252,54 @@ def segments(src):
     return [s.decode("utf-8") for s in segs]
 
 
+def self_recursive_statements(segs):
+    """Indices of the segments that belong to a statement defining a module that instantiates
+    itself through `mod.this`, or to a statement that mentions such a module by name. The property
+    excludes module self-recursion without a base case, and a mutation inside one of these
+    statements (start=1 -> start=11, a renamed field) is how the base case gets lost; the module
+    then recurses until memory runs out. Mutations elsewhere in the file are kept."""
+    stmt = []
+    depth = 0
+    k = 0
+    for sg in segs:
+        stmt.append(k)
+        t = sg.strip().split()[0] if sg.strip() else ""
+        if t in ("(", "{", "["):
+            depth += 1
+        elif t in (")", "}", "]"):
+            depth = max(0, depth - 1)
+        elif t == ";" and depth == 0:
+            k += 1
+    texts = {}
+    for sg, j in zip(segs, stmt):
+        texts[j] = texts.get(j, "") + sg
+    names = set()
+    hot = set()
+    for j, t in texts.items():
+        if "mod.this" in t.replace(" ", ""):
+            hot.add(j)
+            m = re.match(r"\s*let\s+([A-Za-z_][A-Za-z0-9_]*)", t)
+            if m:
+                names.add(m.group(1))
+    for j, t in texts.items():
+        if any(re.search(r"\b%s\b" % re.escape(nm), t) for nm in names):
+            hot.add(j)
+    return {i for i, j in enumerate(stmt) if j in hot}
+
+
+EXCLUDED_MUTATIONS = [0]
+
+
 def mutations(src):
     segs = segments(src)
     if not segs:
         return
     n = len(segs)
+    skip = self_recursive_statements(segs) if "this" in src else set()
     for i in range(n):
+        if i in skip or (i + 1 in skip):
+            EXCLUDED_MUTATIONS[0] += 1
+            continue
         yield "del", "".join(segs[:i] + segs[i + 1:])
         yield "dup", "".join(segs[:i + 1] + segs[i:])
         if i + 1 < n:
@@ -431,6 +473,8 @@ def run(ctx):
             for kind, m in mutations(s):
                 yield "mut-" + kind, m
     stream(gen_mut(), 300, 'mutations')
+    if EXCLUDED_MUTATIONS[0]:
+        ctx.coverage_extra["token_positions_not_mutated_inside_self_recursive_module_statements"] = EXCLUDED_MUTATIONS[0]
 
     # re-run hangs alone (an overloaded batch is only a suspect)
     confirmed = []
